@@ -575,10 +575,21 @@ def t4(prog: Program, chk: Check) -> None:
         return None
     want = {"get_gamma": Poly.sym("N"), "get_lambda": Poly.sym("N") - Poly.const(1)}
     found = {}
-    for loop in walk_local(u.node):
-        if isinstance(loop, ast.For) and isinstance(loop.iter, ast.Call) \
+    class _L:          # a comprehension generator seen as a loop: target, iter, body = element
+        def __init__(self, comp):
+            g0 = comp.generators[0]
+            self.target, self.iter, self.elt, self.lineno, self.col_offset = \
+                g0.target, g0.iter, comp.elt, comp.lineno, comp.col_offset
+    loops_ = [x for x in walk_local(u.node) if isinstance(x, ast.For)]
+    comps_ = [x for x in walk_local(u.node) if isinstance(x, (ast.ListComp, ast.GeneratorExp))
+              and len(x.generators) == 1 and not x.generators[0].ifs]
+    for loop in loops_ + comps_:
+        node_ = loop
+        if not isinstance(loop, ast.For):
+            loop = _L(loop)
+        if isinstance(loop.iter, ast.Call) \
                 and dotted(loop.iter.func) == "range" and len(loop.iter.args) == 1:
-            for c in walk_local(loop):
+            for c in (walk_local(loop) if isinstance(loop, ast.For) else ast.walk(loop.elt)):
                 mc = method_call(c) if isinstance(c, ast.Call) else None
                 if mc and mc[1] in want and mc[0].startswith("self._t_mps"):
                     f = eval_form(loop.iter.args[0], res)
@@ -587,10 +598,10 @@ def t4(prog: Program, chk: Check) -> None:
                     chk.add("T4", u, f"for {norm(loop.target)} in range({norm(loop.iter.args[0])}): "
                             f"{mc[1]}({norm(c.args[0])})", f == want[mc[1]] and arg_is_loopvar,
                             f"bound {f}" if f == want[mc[1]] else
-                            f"exports {f} tensors, the back end holds {want[mc[1]]}", loop)
+                            f"exports {f} tensors, the back end holds {want[mc[1]]}", node_)
     for k in want:
         if k not in found:
-            chk.add("T4", u, f"export loop over {k}", False, "export loop not found")
+            raise AnalysisError(f"T4: the loop of get_augmented_mps that exports {k} was not found")
     rets = [x for x in walk_local(u.node) if isinstance(x, ast.Return)
             and isinstance(x.value, ast.Call) and call_name(x.value) == "AugmentedMPS"]
     ok = bool(rets) and len(rets[0].value.args) + len(rets[0].value.keywords) >= 2
